@@ -136,7 +136,7 @@ def work(task):
                         break
             # stacked data of another real dtype (values -1,0,2 are exact in all of them): same table
             if n <= 10 and start % 3 == 0:
-                for dt in (np.int64, np.float32, np.int32):
+                for dt in (np.int64, np.float32, np.int32, np.dtype(np.float64).newbyteorder()):
                     acc.n += 1
                     try:
                         t2 = np.asarray(likelihood.all_points_all_clusters_log_likelihood(
